@@ -46,11 +46,6 @@ func ReadRequest(r io.Reader, tcpID *api.TcpID, counterPair *api.CounterPair, ca
 	correlationID := d.readInt32()
 	clientID := d.readString()
 
-	if i := int(apiKey); i < 0 || i >= numApis {
-		err = fmt.Errorf("unsupported api key: %d", i)
-		return apiKey, apiVersion, err
-	}
-
 	if err = d.err; err != nil {
 		err = dontExpectEOF(err)
 		return apiKey, apiVersion, err
@@ -198,12 +193,15 @@ func ReadRequest(r io.Reader, tcpID *api.TcpID, counterPair *api.CounterPair, ca
 		mt.(messageType).decode(d, valueOf(deleteTopicsRequest))
 		payload = deleteTopicsRequest
 	default:
-		return apiKey, 0, fmt.Errorf("(Request) Not implemented: %s", apiKey)
+		// No layout for this API: the message is skipped, not decoded. It is still
+		// registered, so that its response can be told apart and skipped too, and the
+		// rest of the stream is read from the right offset.
+		payload = nil
 	}
 
 	request := &Request{
 		Size:          size,
-		ApiKeyName:    apiNames[apiKey],
+		ApiKeyName:    apiKey.String(),
 		ApiKey:        apiKey,
 		ApiVersion:    apiVersion,
 		CorrelationID: correlationID,
